@@ -49,7 +49,8 @@ def placement_cases(ctx, n):
 def correspond(ctx):
     res = Result()
     n_cfg = ctx.pick(4, 10)
-    cases = sk.gen_cases(ctx, so.TABLE_SCHEMES, n_cfg)
+    # the table schemes, and the two array schemes that are not among them (their placement is part of what the model replays)
+    cases = sk.gen_cases(ctx, list(so.TABLE_SCHEMES) + [n for n in ("SSE1", "DP17") if n not in so.TABLE_SCHEMES], n_cfg)
     # databases in which a level / table needs no padding at all (every list a power of two, total a power of two)
     for name in ("CT14", "ANSS16"):
         for cfg in se.grid(name, ctx.rng, 2):
